@@ -45,7 +45,7 @@ MANIFEST = {
             "as the strategy harness does, and that a Restart arriving after a delay (instead of immediately) leaves the kernel theorems "
             "intact, is argued by reading actor_context.go, not proved. The VALUE of the back-off delay (exponential growth, jitter band) is "
             "C18's business: here it is an oracle input constrained by the contract of StandardExponentialBackoff, and run against the real "
-            "function on every case. Deciders that depend on more than (victim, count), e.g. on wall time or on other victims, are outside the "
+            "function on every case. Since /repo bde59a1 a new actor's mailbox is created suspended and resumed when the actor takes up its first OnLaunch; the model does not carry that flag (its spawn queues OnLaunch in the same step, and the system queue is always served first, so no user message can be taken before OnLaunch in the model either): the suspension theorems speak about the suspensions the model has — failures and restarts. Deciders that depend on more than (victim, count), e.g. on wall time or on other victims, are outside the "
             "independence theorem.",
     "technique": "Coq proof on a message-step kernel model + lockstep differential replay of the real actor system inside Coq; "
                  "Coq proofs (simulation for independence, multiset ledger for timers) on a timer-level strategy model + differential "
